@@ -76,6 +76,35 @@ theorem atolUnit_offset (fixed : Bool) (a d : TUnit K) (atol : Tol K) (ha : a.of
   | bare x => cases fixed <;> simp [atolUnit, bareAtolUnit, ha, hd]
   | qty x u => simpa [atolUnit, TolLinear] using ht
 
+/-- with zero offsets, bringing `atol` to `actual`'s unit multiplies it by the ratio of the scale
+    of the unit it is read in (`atolUnit`) to `actual`'s scale — in both variants -/
+theorem atolInActualUnit_linear (fixed : Bool) (a d : TUnit K) (atol : Tol K)
+    (ha : a.offset = 0) (ht : TolLinear atol) (hdim : (atolUnit fixed a d atol).dim = a.dim) :
+    atolInActualUnit fixed a d atol
+      = some (atol.value * ((atolUnit fixed a d atol).scale / a.scale)) := by
+  cases atol with
+  | bare x =>
+    cases fixed
+    · simp [atolInActualUnit, atolUnit, bareAtolUnit, Tol.value, convVal_linear _ _ _ ha ha]
+    · simp [atolInActualUnit, atolUnit, bareAtolUnit, Tol.value]
+  | qty x u =>
+    have hu : u.offset = 0 := ht
+    have hd : (u.dim != a.dim) = false := by
+      have : u.dim = a.dim := hdim
+      simp [this]
+    simp [atolInActualUnit, atolUnit, Tol.value, hd, convVal_linear _ _ _ hu ha]
+
+/-- an `atol` whose unit has another dimension is refused (for a bare `atol` this cannot happen
+    once `desired` is commensurable with `actual`) -/
+theorem atolInActualUnit_refused (fixed : Bool) (a d : TUnit K) (atol : Tol K)
+    (hd : d.dim = a.dim) (hdim : (atolUnit fixed a d atol).dim ≠ a.dim) :
+    atolInActualUnit fixed a d atol = none := by
+  cases atol with
+  | bare x => cases fixed <;> simp [atolUnit, bareAtolUnit, hd] at hdim
+  | qty x u =>
+    have : (u.dim != a.dim) = true := by simpa [atolUnit] using hdim
+    simp [atolInActualUnit, this]
+
 /-- **what either variant of the code computes**, in SI terms: the verdict is `True` exactly
     when `desired` and the unit given to `atol` are commensurable with `actual`, the shapes
     broadcast, and every pair of SI magnitudes is within tolerance (or equal) — with `atol` read
@@ -97,27 +126,25 @@ theorem allcloseQ_iff_si (fixed : Bool) (act des : Qty K) (rtol : K) (atol : Tol
   by_cases hd : des.unit.dim = act.unit.dim
   · have hd' : (des.unit.dim != act.unit.dim) = false := by simp [hd]
     by_cases ht : (atolUnit fixed act.unit des.unit atol).dim = act.unit.dim
-    · have ht' : ((atolUnit fixed act.unit des.unit atol).dim != act.unit.dim) = false := by
-        simp [ht]
+    · have hconv := atolInActualUnit_linear fixed act.unit des.unit atol hoa hot ht
       have h := npAllclose_map_iff rtol
-        (convVal (atolUnit fixed act.unit des.unit atol) act.unit atol.value) id
+        (atol.value * ((atolUnit fixed act.unit des.unit atol).scale / act.unit.scale)) id
         (convVal des.unit act.unit) act.vals des.vals
       simp only [List.map_id, id] at h
-      simp only [hd', ht', hr, hv, Bool.false_eq_true, if_false]
+      simp only [hd', hr, hv, hconv, Bool.false_eq_true, if_false]
       rw [h]
       constructor
       · rintro ⟨ps, hps, hall⟩
         refine ⟨ps, hps, hd.symm, ht.trans hd.symm, fun p hp => ?_⟩
         have := hall p hp
-        rw [convVal_linear _ _ _ hau hoa, convVal_linear _ _ _ hod hoa] at this
+        rw [convVal_linear _ _ _ hod hoa] at this
         exact (iscloseElem_conv _ _ _ _ _ _ _ hsa).mp this
       · rintro ⟨ps, hps, _, _, hall⟩
         refine ⟨ps, hps, fun p hp => ?_⟩
-        rw [convVal_linear _ _ _ hau hoa, convVal_linear _ _ _ hod hoa]
+        rw [convVal_linear _ _ _ hod hoa]
         exact (iscloseElem_conv _ _ _ _ _ _ _ hsa).mpr (hall p hp)
-    · have ht' : ((atolUnit fixed act.unit des.unit atol).dim != act.unit.dim) = true := by
-        simpa using ht
-      simp only [hd', hr, ht', Bool.false_eq_true, if_false, if_true]
+    · have hconv := atolInActualUnit_refused fixed act.unit des.unit atol hd ht
+      simp only [hd', hr, hconv, Bool.false_eq_true, if_false]
       constructor
       · intro h; cases h
       · rintro ⟨_, _, h1, h2, _⟩; exact absurd (h2.trans h1.symm) ht
@@ -126,7 +153,6 @@ theorem allcloseQ_iff_si (fixed : Bool) (act des : Qty K) (rtol : K) (atol : Tol
     constructor
     · intro h; cases h
     · rintro ⟨_, _, h1, _⟩; exact absurd h1.symm hd
-
 
 /-! ### the specification, and the two variants against it -/
 
